@@ -122,10 +122,18 @@ def typecheck(
         # Add constants to the symbol table as they are encountered, so that each
         # constant is not in scope until after its declaration.
         if looks_like_a_CONSTANT(op):
-            if out_of_range(op.args[1]):
+            value = op.args[1]
+            if op.tokens[1].type == Token.SYMBOL:
+                # The value may be given by a constant that is already in scope;
+                # anything else has been reported as an error.
+                value = symbol_table.get(value)
+                if not isinstance(value, Constant):
+                    value = 0
+
+            if out_of_range(value):
                 symbol_table[op.args[0]] = Constant(0)
             else:
-                symbol_table[op.args[0]] = Constant(op.args[1])
+                symbol_table[op.args[0]] = Constant(value)
 
     return (symbol_table, messages)
 
@@ -176,8 +184,10 @@ def get_labels(
                     symbol_table[op.args[0]] = DataLabel(dc)
         elif op.name == "CONSTANT":
             if len(op.args) == 2:
+                # The value may be given by a constant that has already been declared.
+                value = constants.get(op.args[1], op.args[1])
                 with suppress(ValueError):
-                    constants[op.args[0]] = Constant(op.args[1])
+                    constants[op.args[0]] = Constant(value)
         elif op.name == "INTEGER":
             dc += 1
         elif op.name == "LP_STRING" or op.name == "TIGER_STRING":
@@ -327,5 +337,5 @@ def looks_like_a_CONSTANT(op: AbstractOperation) -> bool:
         op.name == "CONSTANT"
         and len(op.args) == 2
         and isinstance(op.args[0], str)
-        and isinstance(op.args[1], int)
+        and (isinstance(op.args[1], int) or op.tokens[1].type == Token.SYMBOL)
     )
